@@ -2,7 +2,8 @@
 
 Clean(rule) = the rule holds no cross-file evidence and no content cache. __init__ establishes it (structural check
 c08-init-clean in contracts/c08_frames.py), check() may leave it (evidence of THIS run), finalize() must re-establish
-it -- otherwise a long-lived Linter reports, on its next call, things it saw in an earlier one."""
+it -- otherwise a long-lived Linter reports, on its next call, things it saw in an earlier one (DRYRule.finalize did not,
+until the fix recorded in known_findings.json under C08-dry-finalize-keeps-evidence)."""
 from pyvc import api as _api
 from pyvc.api import contract, lemma, Int, Bool, Str, Dict, SeqOf, Rec, Opt, Opaque, Any, implies, uf
 from pyvc.ex_call import EXTERNALS
@@ -140,30 +141,24 @@ def str_clean(r):
 
 @contract(DRY + "DRYRule.finalize", props=["C08"], types=dict(self=DRYRuleT, violations=Viols), returns=Viols, raises=["OSError"],
           modifies=["self._constants", "self._file_contents", "self._helpers.inline_ignore._ignore_ranges",
-                    "self._helpers.constant_violation_builder.min_occurrences"])
+                    "self._helpers.constant_violation_builder.min_occurrences",
+                    "self._storage", "self._file_analyzer", "self._config", "self._project_root", "self._initialized"])
 class DryFinalize:
     def ensures_clean_after_finalize(self, old):
         # C08: nothing seen in an earlier call is reported again => finalize() re-establishes Clean
-        # EXPECTED TO FAIL (C08-dry-finalize-keeps-evidence): _storage / _initialized / _config / _file_analyzer /
-        # _project_root survive finalize()
+        # (holds since the fix recorded in known_findings.json: C08-dry-finalize-keeps-evidence)
         return implies(old.self._storage is not None and old.self._config is not None, dry_clean(self))
 
-    def ensures_what_is_reset(self, old):
-        # finding-adjusted: exactly the per-run caches are reset (the frame obligations prove that _storage,
-        # _initialized, _config, _file_analyzer and _project_root are left as they were)
+    def ensures_inline_ignores_cleared(self, old):
         return implies(old.self._storage is not None and old.self._config is not None,
-                       self._constants == [] and self._file_contents == {} and self._helpers.inline_ignore._ignore_ranges == {})
+                       self._helpers.inline_ignore._ignore_ranges == {})
 
-    def ensures_evidence_survives(self, old):
-        # finding, stated positively and PROVED: after finalize() the rule still holds the block store, the first
-        # call's config and the initialised flag -- i.e. Clean provably does NOT hold (this is what makes the next
-        # lint call on the same object see the previous run's files)
-        return implies(old.self._storage is not None and old.self._config is not None,
-                       self._storage is not None and self._config is not None and self._initialized == old.self._initialized
-                       and not dry_clean(self))
-
-    def ensures_nothing_collected_nothing_reported(self, result, old):
-        return implies(old.self._storage is None or old.self._config is None, result == [])
+    def ensures_nothing_collected_nothing_changed(self, result, old):
+        # a rule that collected nothing reports nothing and is left exactly as it was
+        return implies(old.self._storage is None or old.self._config is None,
+                       result == [] and self._storage == old.self._storage and self._config == old.self._config
+                       and self._initialized == old.self._initialized and self._constants == old.self._constants
+                       and self._file_contents == old.self._file_contents)
 
 
 @contract(STR + "StringlyTypedRule.finalize", props=["C08"], types=dict(self=StrRuleT, violations=Viols),
